@@ -51,8 +51,10 @@ type Server struct {
 	listenerMutex sync.Mutex
 	// acceptLoops counts the running accept loops so that Stop can wait for them.
 	acceptLoops sync.WaitGroup
-	// requirePassAuthenticator is the authenticator Start registered for requirepass.
+	// requirePassAuthenticator is the authenticator registered for requirepass,
+	// requirePassMutex guards it.
 	requirePassAuthenticator auth.Authenticator
+	requirePassMutex         sync.Mutex
 }
 
 // NewServer returns a new server instance.
@@ -101,20 +103,7 @@ func (server *Server) RegisterExexutor(cmd string, executor Executor) {
 
 // Start starts the server.
 func (server *Server) Start() error {
-	password, requirePass := server.ConfigRequirePass()
-	// The authenticator registered for a previous requirepass must not outlive it:
-	// every authenticator has to accept, so it would refuse the new password too.
-	if server.requirePassAuthenticator != nil && (!requirePass || !server.HasClearTextPasswordAuthenticator("", password)) {
-		server.RemoveAuthenticator(server.requirePassAuthenticator)
-		server.requirePassAuthenticator = nil
-	}
-	if requirePass {
-		if !server.HasClearTextPasswordAuthenticator("", password) {
-			authenticator := auth.NewClearTextPasswordAuthenticatorWith("", password)
-			server.AddAuthenticator(authenticator)
-			server.requirePassAuthenticator = authenticator
-		}
-	}
+	server.applyRequirePass()
 
 	err := server.ConnManager.Start()
 	if err != nil {
